@@ -215,7 +215,7 @@ def run(out: Outcome) -> None:
             # statistic that sits on such a boundary up to rounding (e.g. D = 3/8 with N = 8/3) is a tie - only the statistic is compared there
             nn, mm = len(rep["ref"]), len(rep["test"])
             ne = nn * mm / (nn + mm)
-            on_boundary = min(abs(val[0] * ne - k) for k in (1, 2, 3)) < 1e-9
+            on_boundary = min(abs(val[0] * ne - k) for k in (1, 2, 3)) < 1e-9 or abs(val[0] - 0.5) < 1e-12 or abs(val[0] - (ne - 1.0) / (2.0 * ne)) < 1e-12
             if on_boundary:
                 out.count("kuiper_branch_boundary_ties_skipped")
             ok = close(ms, val[0], 1e-12) and (on_boundary or (math.isnan(mp) and math.isnan(val[1])) or (math.isinf(mp) and mp == val[1]) or close(mp, val[1], 1e-7))
